@@ -4,6 +4,7 @@ package main
 // call events, sink obligations, inlining of closures under higher-order summaries, defers.
 
 import (
+	"os"
 	"fmt"
 	"go/token"
 	"go/types"
@@ -377,6 +378,30 @@ func (fr *Frame) doCall(in ssa.Instruction, com *ssa.CallCommon, st *State, isGo
 	case clo != nil && callee != nil && len(callee.Blocks) > 0 && c.inlineDepth < 6 && callee.Parent() != nil && com.StaticCallee() != nil:
 		// immediately invoked function literal
 		res, err = fr.inlineCall(callee, clo, ca, st, fr.reach)
+	case con == nil && !isGo && fr.autoInlinable(callee, com):
+		// a helper of the package under verification that has no contract of its own (typically the
+		// product of an extract-method refactoring): its body is part of the caller's text. Executed
+		// in place; when the body cannot be executed the call falls back to "no contract" below.
+		nLines, nObls, nStale := len(c.sc.lines), len(c.sc.obls), len(c.stale)
+		saved := st.clone()
+		savedReach, savedGuard, savedPriv := fr.reach, c.guard, append([]privRef{}, c.privateRefs...)
+		savedChildren := len(fr.children)
+		res, err = fr.inlineCall(callee, clo, ca, st, fr.reach)
+		if err != nil {
+			c.sc.lines, c.sc.obls, c.stale = c.sc.lines[:nLines], c.sc.obls[:nObls], c.stale[:nStale]
+			*st = *saved
+			fr.reach, c.guard, c.privateRefs = savedReach, savedGuard, savedPriv
+			fr.children = fr.children[:savedChildren]
+			err = nil
+			c.uncontracted[key] = true
+			c.havocAll(st)
+			res = fr.freshTuple(sig.Results(), "ret_"+shortKey(key))
+			for _, o := range ca.outs {
+				fr.copyOut(o.l, o.p, st)
+			}
+		} else {
+			c.autoInlined[key] = true
+		}
 	default:
 		// no contract: results are arbitrary, everything reachable may change
 		if key != "" {
@@ -425,6 +450,37 @@ func (c *FuncCtx) ieeeBuiltin(key string, args []Term) (Term, bool) {
 		return mk(SBool, "fp.isNaN", a), true
 	}
 	return Term{}, false
+}
+
+// autoInlinable: a statically known, non-recursive function with a body, declared in the package of
+// the function under verification, small enough, called directly (not go/defer).
+func (fr *Frame) autoInlinable(callee *ssa.Function, com *ssa.CallCommon) bool {
+	c := fr.c
+	if os.Getenv("GOVC_NO_AUTOINLINE") != "" || callee == nil || com.StaticCallee() == nil || len(callee.Blocks) == 0 || c.inlineDepth >= 2 {
+		return false
+	}
+	if callee.Parent() != nil || callee.Signature.Variadic() {
+		return false
+	}
+	if c.top == nil || fnPkgPath(callee) != fnPkgPath(c.top) {
+		return false
+	}
+	for f := fr; f != nil; f = f.parent {
+		if f.fn == callee {
+			return false
+		}
+	}
+	n := 0
+	for _, b := range callee.Blocks {
+		n += len(b.Instrs)
+		for _, in := range b.Instrs {
+			switch in.(type) {
+			case *ssa.Go, *ssa.Defer, *ssa.Select, *ssa.Send, *ssa.Panic:
+				return false
+			}
+		}
+	}
+	return n <= 400
 }
 
 func (fr *Frame) setReach(t Term) {
